@@ -14,6 +14,9 @@
 //   s1 <dt> <off|-> <p> | s2 <dt> <off|-> <s> <e> | svec2 <dt> <off|-> <m> <s e>* [surplus e]     deprecated sampled overloads
 //   setvec <n> <mode> <m> <s e>* | dfvec <n> <mode> <m> <s e>* | rvec <k> <t..> <mode> <m> <s e>* | rvecb <k> <t..> <strict> <mode> <m> <s e>*
 //   r1 <k> <t..> <p> <le 0|1> | r2 <k> <t..> <s> <e> | pinr <k> <t..> <p>
+//   core s|set|df|r ...   the indexOf overloads that take the axis description from the caller
+//   opidx s|r ...         operator[]
+//   uset udf usetvec udfvec udep udepvec   the remaining overloads of util::positionToIndex (see the handlers)
 //   saxis <dt> <off|-> <count> <start> | raxis <k> <t..> <count> <start> | tickat <k> <t..> <i>    axis()/tickAt()
 // rules: L LE GE G EQ
 #include "common.hpp"
@@ -177,6 +180,89 @@ static std::string handle(const std::vector<std::string> &t) {
         }
         return out;
     }
+    // ---- caller-supplied-axis cores: the stored interval / labels / rows / ticks must NOT matter
+    if (c == "core") {
+        const std::string &k = t[1];
+        if (k == "s") {          // core s <dt> <off|-> <s> <e> <mode>
+            set_sampled("d:405ec00000000000", "d:4008000000000000");      // stored: 123.0, 3.0
+            double off = t[3] == "-" ? 0.0 : dec_dbl(t[3]);
+            return showp(sd.indexOf(dec_dbl(t[4]), dec_dbl(t[5]), dec_dbl(t[2]), off, rmode(t[6])));
+        }
+        if (k == "set") {        // core set <n caller labels> <own labels> <s> <e> <mode>
+            set_labels(dec_int(t[3]));
+            std::vector<std::string> mine;
+            for (long i = 0; i < dec_int(t[2]); i++) mine.push_back("m" + std::to_string(i));
+            auto r = setd.indexOf(dec_dbl(t[4]), dec_dbl(t[5]), mine, rmode(t[6]));
+            return showp(r) + " | labels " + std::to_string(mine.size());
+        }
+        if (k == "df") {         // core df <n caller rows> <own rows> <s> <e> <mode>
+            set_rows(dec_int(t[3]));
+            return showp(dfd.indexOf(dec_dbl(t[4]), dec_dbl(t[5]), static_cast<nix::ndsize_t>(dec_int(t[2])), rmode(t[6])));
+        }
+        if (k == "r") {          // core r <k> <t..> <s> <e> <mode>     stored ticks: {1000, 2000}
+            set_ticks(std::vector<double>{1000.0, 2000.0});
+            size_t n = static_cast<size_t>(dec_int(t[2]));
+            std::vector<double> ticks;
+            for (size_t i = 0; i < n; i++) ticks.push_back(dec_dbl(t[3 + i]));
+            return showp(rd.indexOf(dec_dbl(t[3 + n]), dec_dbl(t[4 + n]), ticks, rmode(t[5 + n])));
+        }
+        throw std::logic_error("bad core kind");
+    }
+    if (c == "opidx") {          // opidx s <dt> <off|-> <i> | opidx r <k> <t..> <i>
+        if (t[1] == "s") { set_sampled(t[2], t[3]); return enc_dbl(sd[dec_u64(t[4])]); }
+        size_t k = static_cast<size_t>(dec_int(t[2]));
+        std::vector<double> ticks;
+        for (size_t i = 0; i < k; i++) ticks.push_back(dec_dbl(t[3 + i]));
+        set_ticks(ticks);
+        return enc_dbl(rd[dec_u64(t[3 + k])]);
+    }
+    // ---- the remaining overloads of util::positionToIndex
+    if (c == "uset" || c == "udf") {     // uset <n> <p> <rule> | udf <n> <p> <rule>
+        if (c == "uset") { set_labels(dec_int(t[1])); return show(nix::util::positionToIndex(dec_dbl(t[2]), rule(t[3]), setd)); }
+        set_rows(dec_int(t[1])); return show(nix::util::positionToIndex(dec_dbl(t[2]), rule(t[3]), dfd));
+    }
+    if (c == "usetvec" || c == "udfvec") {   // <n> <mode> <m> <s e>* [surplus e]
+        if (c == "usetvec") set_labels(dec_int(t[1])); else set_rows(dec_int(t[1]));
+        size_t m = static_cast<size_t>(dec_int(t[3]));
+        std::vector<double> s, e;
+        for (size_t i = 0; i < m; i++) { s.push_back(dec_dbl(t[4 + 2 * i])); e.push_back(dec_dbl(t[5 + 2 * i])); }
+        if (t.size() > 4 + 2 * m) e.push_back(dec_dbl(t[4 + 2 * m]));
+        auto r = c == "usetvec" ? nix::util::positionToIndex(s, e, rmode(t[2]), setd) : nix::util::positionToIndex(s, e, rmode(t[2]), dfd);
+        std::string out = std::to_string(r.size());
+        for (auto &x : r) out += " [" + showp(x) + "]";
+        return out;
+    }
+#pragma GCC diagnostic push
+#pragma GCC diagnostic ignored "-Wdeprecated-declarations"
+    if (c == "udep" || c == "udepvec") {
+        // udep s <dt> <off|-> <dimunit|-> <p> <unit> | udep r <k> <t..> <dimunit|-> <p> <unit> | udep set <n> <p> <unit>
+        // udepvec <same dimension part> <m> <s e u>*
+        size_t at;
+        const std::string &k = t[1];
+        if (k == "s") { set_sampled(t[2], t[3]); at = 4; if (t[at] == "-") sd.unit(boost::none); else sd.unit(t[at]); at++; }
+        else if (k == "r") {
+            size_t n = static_cast<size_t>(dec_int(t[2]));
+            std::vector<double> ticks;
+            for (size_t i = 0; i < n; i++) ticks.push_back(dec_dbl(t[3 + i]));
+            set_ticks(ticks);
+            at = 3 + n; if (t[at] == "-") rd.unit(boost::none); else rd.unit(t[at]); at++;
+        } else { set_labels(dec_int(t[2])); at = 3; }
+        if (c == "udep") {
+            double p = dec_dbl(t[at]);
+            const std::string &u = t[at + 1];
+            nix::ndsize_t r = k == "s" ? nix::util::positionToIndex(p, u, sd) : k == "r" ? nix::util::positionToIndex(p, u, rd) : nix::util::positionToIndex(p, u, setd);
+            return enc_u64(r);
+        }
+        size_t m = static_cast<size_t>(dec_int(t[at]));
+        std::vector<double> s, e;
+        std::vector<std::string> u;
+        for (size_t i = 0; i < m; i++) { s.push_back(dec_dbl(t[at + 1 + 3 * i])); e.push_back(dec_dbl(t[at + 2 + 3 * i])); u.push_back(t[at + 3 + 3 * i]); }
+        auto r = k == "s" ? nix::util::positionToIndex(s, e, u, sd) : k == "r" ? nix::util::positionToIndex(s, e, u, rd) : nix::util::positionToIndex(s, e, u, setd);
+        std::string out = std::to_string(r.size());
+        for (auto &x : r) out += " [" + enc_u64(x.first) + " " + enc_u64(x.second) + "]";
+        return out;
+    }
+#pragma GCC diagnostic pop
     if (c == "saxis") {        // saxis <dt> <off|-> <count> <start>
         set_sampled(t[1], t[2]);
         auto ax = sd.axis(dec_u64(t[3]), dec_u64(t[4]));
